@@ -38,6 +38,9 @@
  *             must be the day it was made from -- a date inside a calendar must not be rejected or moved by the reader
  *
  * case = (scale, year); evaluations are counted per date.
+ *   mode=multirule  events with SEVERAL rules in a calendar with a Hijri CALSCALE: the stream of the event must be the
+ *             sorted union of the streams the rules give one by one (less what the EXRULEs give), every occurrence
+ *             labelled with the same scale; see multirule_case()
  * options: mode=, y0= y1= (g2h), h0= h1= (h2g), nocount=1 (do not count non-trivial cases)
  */
 #include "vdrv.h"
@@ -759,6 +762,199 @@ calscale_case(int pi, int form, int Y)
 	free_echs_task(tk);
 }
 
+/* ------------------------------------------------------------- multirule */
+/* An event may carry several RRULEs (and EXRULEs); its occurrences are the union of what the rules give (less the
+ * exceptions).  In a calendar with a Hijri CALSCALE every occurrence is delivered in that scale, whichever rule it comes
+ * from: converting to the scale is done per rule stream.  Differential oracle: the event with rule i alone gives S_i
+ * (that is what modes stream and calscale judge); the event with all rules must give, in chronological order, exactly
+ * the set (union of the RRULE S_i) less (union of the EXRULE S_i), every instant labelled like those of S_0, bit for
+ * bit the instants the single-rule events delivered.  %s in a rule stands for the scale name (SCALE=%s rules expand in
+ * the Hijri calendar).  DTSTART is a Gregorian date; events that reach outside a table calendar are left out. */
+struct mrset_s {
+	const char *name;
+	int nr;
+	const char *rule[4];	/* "R..." = RRULE, "X..." = EXRULE; text after the first letter */
+	int span;		/* days the rules reach beyond DTSTART at most */
+};
+static const struct mrset_s mrset[] = {
+	{"daily7+daily5", 2, {"RFREQ=DAILY;INTERVAL=7;COUNT=80", "RFREQ=DAILY;INTERVAL=5;COUNT=90"}, 600},
+	{"monthly+yearly", 2, {"RFREQ=MONTHLY;COUNT=30", "RFREQ=YEARLY;COUNT=4"}, 1500},
+	{"hijri-yearly+hijri-monthly", 2, {"RFREQ=YEARLY;SCALE=%s;COUNT=4", "RFREQ=MONTHLY;SCALE=%s;COUNT=20"}, 1500},
+	{"hijri-yearly+hijri-yearend", 2, {"RFREQ=YEARLY;SCALE=%s;COUNT=4", "RFREQ=YEARLY;SCALE=%s;BYMONTH=12;BYMONTHDAY=-1;COUNT=4"}, 1900},
+	{"three-rules", 3, {"RFREQ=DAILY;INTERVAL=7;COUNT=80", "RFREQ=DAILY;INTERVAL=5;COUNT=90", "RFREQ=MONTHLY;SCALE=%s;COUNT=12"}, 600},
+	{"rrule+exrule", 2, {"RFREQ=DAILY;COUNT=150", "XFREQ=DAILY;INTERVAL=3;COUNT=30"}, 200},
+	{"rrule+two-exrules", 3, {"RFREQ=DAILY;COUNT=150", "XFREQ=DAILY;INTERVAL=3;COUNT=30", "XFREQ=DAILY;INTERVAL=5;COUNT=25"}, 200},
+	{"two-rrules+exrule", 3, {"RFREQ=DAILY;INTERVAL=2;COUNT=100", "RFREQ=DAILY;INTERVAL=3;COUNT=70", "XFREQ=WEEKLY;COUNT=30"}, 250},
+};
+#define NMRSET	((int)(sizeof(mrset) / sizeof(*mrset)))
+static const int mrstart[][3] = {{1950, 3, 1}, {1999, 12, 25}, {2010, 6, 17}, {2016, 3, 1}};
+#define NMRSTART	((int)(sizeof(mrstart) / sizeof(*mrstart)))
+#define MR_MAX	1024
+
+/* chronological key of an instant of any scale: Gregorian day number and second of the day */
+static int64_t
+mr_key(echs_instant_t i)
+{
+	const echs_instant_t g = echs_instant_detach_scale(echs_instant_rescale(i, SCALE_GREGORIAN));
+	int64_t k = (int64_t)cvl_days((int)g.y, (int)g.m, (int)g.d) * 86400;
+	if (!echs_instant_all_day_p(i)) {
+		k += (int64_t)g.H * 3600 + (int64_t)g.M * 60 + g.S;
+	}
+	return k;
+}
+
+/* the occurrences of the event DTSTART + the rules picked by MASK (as = 'R': EXRULE lines are written as RRULE) */
+static int
+mr_unroll(echs_instant_t *out, const char *calname, const char *dtstart, const struct mrset_s *S, unsigned mask, bool as_rrule, char *text, size_t tsz)
+{
+	size_t o;
+	echs_task_t tk;
+	int n = 0;
+
+	o = (size_t)snprintf(text, tsz, "BEGIN:VCALENDAR\nVERSION:2.0\nCALSCALE:%s\nBEGIN:VEVENT\nUID:c15mr@verif\nSUMMARY:true\n%s\n", calname, dtstart);
+	for (int r = 0; r < S->nr; r++) {
+		char rule[160];
+		if (!(mask >> r & 1U)) continue;
+		snprintf(rule, sizeof(rule), S->rule[r] + 1, calname, calname);
+		o += (size_t)snprintf(text + o, tsz - o, "%s:%s\n", S->rule[r][0] == 'X' && !as_rrule ? "EXRULE" : "RRULE", rule);
+	}
+	snprintf(text + o, tsz - o, "END:VEVENT\nEND:VCALENDAR\n");
+	tk = ical_task1(text);
+	if (tk == NULL || tk->strm == NULL) {
+		if (tk) free_echs_task(tk);
+		return -1;
+	}
+	while (n < MR_MAX) {
+		const echs_event_t e = echs_evstrm_pop(tk->strm);
+		vd_sh->evals++;
+		if (echs_nul_instant_p(e.from)) break;
+		out[n++] = echs_instant_detach_tzob(e.from);
+	}
+	free_echs_task(tk);
+	return n;
+}
+
+static void
+multirule_case(int pi, int si, int di, int form)
+{
+	static echs_instant_t S[4][MR_MAX], M[MR_MAX], X[4 * MR_MAX], E[4 * MR_MAX];
+	static char text[2048], mtext[2048];
+	const struct mrset_s *R = &mrset[si];
+	const int s = pname[pi].s;
+	const struct tab_s t = table(s);
+	const long z0 = cvl_days(mrstart[di][0], mrstart[di][1], mrstart[di][2]);
+	char dtstart[80], sig[200], tail[120], b1[40], b2[40];
+	int ns[4], nm, nx = 0, ne = 0, lbl;
+
+	/* the rule set and the scale are in the case description */
+	snprintf(tail, sizeof(tail), "%s/%s", strstr(R->name, "exrule") ? "with-exrules" : "rrules-only", form ? "timed" : "allday");
+	snprintf(dtstart, sizeof(dtstart), "DTSTART%s:%04d%02d%02d%s", form ? "" : ";VALUE=DATE", mrstart[di][0], mrstart[di][1], mrstart[di][2], form ? "T120000Z" : "");
+	if (gcover(&t, z0) != 0 || gcover(&t, z0 + R->span + 64) != 0) {
+		vd_count("multirule_events_reaching_outside_table", 1);
+		return;
+	}
+	/* rule by rule */
+	for (int r = 0; r < R->nr; r++) {
+		ns[r] = mr_unroll(S[r], pname[pi].name, dtstart, R, 1U << r, true, text, sizeof(text));
+		if (ns[r] <= 0 || ns[r] >= MR_MAX) {
+			snprintf(sig, sizeof(sig), "multirule/single-rule-no-stream/%s", tail);
+			vd_viol(sig, "rule %d alone: %s", r + 1, ns[r] < 0 ? "the parser produced no task/stream" : ns[r] ? "the stream does not end" : "no occurrence");
+			return;
+		}
+	}
+	lbl = (int)echs_instant_scale(S[0][0]);
+	if (lbl != s) {
+		vd_count("multirule_name_read_as_other_scale", 1);
+	}
+	for (int r = 0; r < R->nr; r++) {
+		for (int k = 0; k < ns[r]; k++) {
+			if ((int)echs_instant_scale(S[r][k]) != lbl) {
+				snprintf(sig, sizeof(sig), "multirule/single-rule-label/%s", tail);
+				vd_viol(sig, "rule %d alone: occurrence #%d is labelled %s, the first occurrence of rule 1 alone %s", r + 1, k + 1, sname[echs_instant_scale(S[r][k])], sname[lbl]);
+				return;
+			}
+			if (R->rule[r][0] == 'X') {
+				X[nx++] = S[r][k];
+			} else {
+				E[ne++] = S[r][k];
+			}
+		}
+	}
+	/* expected: sorted duplicate-free union of the RRULE streams less the EXRULE streams */
+	for (int i = 1; i < ne; i++) {
+		const echs_instant_t v = E[i];
+		const int64_t kv = mr_key(v);
+		int j = i;
+		for (; j > 0 && mr_key(E[j - 1]) > kv; j--) E[j] = E[j - 1];
+		E[j] = v;
+	}
+	{
+		int w = 0;
+		for (int i = 0; i < ne; i++) {
+			bool drop = w > 0 && E[w - 1].u == E[i].u;
+			for (int j = 0; j < nx && !drop; j++) drop = X[j].u == E[i].u;
+			if (!drop) E[w++] = E[i];
+		}
+		ne = w;
+	}
+	/* all rules in one event */
+	nm = mr_unroll(M, pname[pi].name, dtstart, R, (1U << R->nr) - 1U, false, mtext, sizeof(mtext));
+	{
+		char *q;
+		vd_desc("multirule: %s", mtext);
+		for (q = vd_sh->desc; *q; q++) if (*q == '\n') *q = ' ';
+	}
+	if (nm < 0 || nm >= MR_MAX) {
+		snprintf(sig, sizeof(sig), "multirule/no-stream/%s", tail);
+		vd_viol(sig, "%s", nm < 0 ? "the parser produced no task/stream" : "the stream does not end");
+		return;
+	}
+	for (int k = 0; k < nm; k++) {
+		if ((int)echs_instant_scale(M[k]) != lbl) {
+			snprintf(sig, sizeof(sig), "multirule/label-differs/%s", tail);
+			vd_viol(sig, "occurrence #%d is %s %s, the occurrences of each rule alone are labelled %s (that very day alone: %s)", k + 1, sname[echs_instant_scale(M[k])],
+				inst_str(b1, sizeof(b1), echs_instant_detach_scale(M[k])), sname[lbl],
+				inst_str(b2, sizeof(b2), echs_instant_detach_scale(echs_instant_rescale(M[k], (echs_scale_t)lbl))));
+			return;
+		}
+		if (k && mr_key(M[k]) < mr_key(M[k - 1])) {
+			snprintf(sig, sizeof(sig), "multirule/not-increasing/%s", tail);
+			vd_viol(sig, "occurrence #%d (%s %s) lies before occurrence #%d (%s)", k + 1, sname[lbl], inst_str(b1, sizeof(b1), echs_instant_detach_scale(M[k])), k,
+				inst_str(b2, sizeof(b2), echs_instant_detach_scale(M[k - 1])));
+			return;
+		}
+	}
+	{
+		/* as sets (an instant two rules give may come once or twice) */
+		int i = 0, k = 0;
+		while (i < ne || k < nm) {
+			if (k && k < nm && M[k].u == M[k - 1].u) {
+				vd_count("multirule_instants_of_two_rules_delivered_twice", 1);
+				k++;
+				continue;
+			}
+			if (i < ne && k < nm && E[i].u == M[k].u) {
+				i++, k++;
+				continue;
+			}
+			if (i < ne && (k >= nm || mr_key(E[i]) <= mr_key(M[k]))) {
+				snprintf(sig, sizeof(sig), "multirule/missing/%s", tail);
+				vd_viol(sig, "%s %s is an occurrence of a rule alone%s, the event with all rules delivers %s as occurrence #%d", sname[lbl],
+					inst_str(b1, sizeof(b1), echs_instant_detach_scale(E[i])), nx ? " and of no EXRULE alone" : "",
+					k < nm ? inst_str(b2, sizeof(b2), echs_instant_detach_scale(M[k])) : "the end of the stream", k + 1);
+			} else {
+				snprintf(sig, sizeof(sig), "multirule/extra/%s", tail);
+				vd_viol(sig, "occurrence #%d is %s %s, which %s", k + 1, sname[lbl], inst_str(b1, sizeof(b1), echs_instant_detach_scale(M[k])),
+					nx ? "no RRULE alone delivers or an EXRULE alone delivers" : "no rule alone delivers");
+			}
+			return;
+		}
+	}
+	NONTRIVIAL();
+	vd_sample("multirule CALSCALE:%s %s %s: %d rules alone give %d distinct occurrences after exceptions, the event with all rules the same %d, all labelled %s",
+		  pname[pi].name, dtstart, R->name, R->nr, ne, nm, sname[lbl]);
+}
+
 /* ------------------------------------------------------------- text */
 /* names the reader takes for what they say when the value follows directly (`;SCALE=<name>:<digits>'); HIJRI.IC and
  * HIJRI.IIC are read as IA / IIA (known quirk of the name reader, not a matter of the conversion) and left out */
@@ -997,6 +1193,20 @@ enumerate(void)
 						pname[pi].name, form ? "" : ";VALUE=DATE", Y, form ? "T120000Z" : "", CS_COUNT);
 					vd_shape("calscale/%s/%s", form ? "timed" : "allday", tname[pname[pi].s]);
 					calscale_case((int)pi, form, Y);
+				}
+			}
+		}
+	} else if (!strcmp(mode, "multirule")) {
+		for (int form = 0; form < 2; form++) {
+			for (int si = 0; si < NMRSET; si++) {
+				for (int di = 0; di < NMRSTART; di++) {
+					for (size_t pi = 0; pi < sizeof(pname) / sizeof(*pname); pi++) {
+						if (!vd_next()) continue;
+						vd_desc("multirule: CALSCALE:%s DTSTART %04d-%02d-%02d%s rules %s", pname[pi].name, mrstart[di][0], mrstart[di][1], mrstart[di][2],
+							form ? "T12:00:00Z" : "", mrset[si].name);
+						vd_shape("multirule/%s/%s", strstr(mrset[si].name, "exrule") ? "with-exrules" : "rrules-only", form ? "timed" : "allday");
+						multirule_case((int)pi, si, di, form);
+					}
 				}
 			}
 		}
